@@ -146,6 +146,24 @@ Proof. vm_compute. repeat split. Qed.
 Example C03_nonvacuous_frontier : forall (f : nat -> N) n c0, (n <= 2 ^ 32)%nat -> CacheInv nodeN 0 f 32 n (go_run nodeN 0 f 32 n c0).
 Proof. intros f n c0. exact (go_run_inv nodeN 0 f 32 n c0). Qed.
 
+(* ================= the translated Go code =================
+   Gen/GenLimitCert.v is GENERATED on every run from aggsender/flows/flow_base.go: getNewLocalExitRoot, the rule by which a
+   certificate gets its new local exit root (the model's `new_ler`): the previous root when the certificate has no bridge exit,
+   otherwise what the bridge syncer recorded for the deposit count of the LAST bridge exit - MaxDepositCount() of the translated
+   build parameters (Gen/GenBuildParams.v) - or an error when the syncer cannot give it. GetExitRootByIndex is an oracle. *)
+From Coq Require Import ZArith.
+From Verif Require Base.GoNum Gen.GenBuildParams Gen.GenLimitCert Proofs.GenAgreeBuildParams Proofs.GenAgreeLimitCert.
+Theorem C03_generated_getNewLocalExitRoot_rule : forall (hash : Type) (hash0 : hash) (exitRootByIndex : N -> hash * GoNum.gerr)
+  (c : GenBuildParams.CertificateBuildParams) (prev : hash),
+  (Z.of_nat (List.length (GenBuildParams.CertificateBuildParams_Bridges c)) < 9223372036854775808)%Z ->
+  GenLimitCert.getNewLocalExitRoot hash hash0 exitRootByIndex (Some c) prev =
+  match GenAgreeBuildParams.last_opt (GenBuildParams.CertificateBuildParams_Bridges c) with
+  | None => (prev, GoNum.EOK)
+  | Some b => let '(r, e) := exitRootByIndex (GenBuildParams.Bridge_DepositCount b) in
+              if negb (GoNum.err_eqb e GoNum.EOK) then (hash0, GoNum.err_wrap e) else (r, GoNum.EOK)
+  end.
+Proof. exact GenAgreeLimitCert.getNewLocalExitRoot_closed_form. Qed.
+
 Print Assumptions C03_cert_root_consistent.
 Print Assumptions C03_cert_root_consistent_frontier.
 Print Assumptions C03_exits_are_range_events.
@@ -155,3 +173,4 @@ Print Assumptions C03_exit_hash_eq_bridge_hash.
 Print Assumptions C03_exit_fields.
 Print Assumptions C03_imported_fields.
 Print Assumptions C03_metadata_roundtrip.
+Print Assumptions C03_generated_getNewLocalExitRoot_rule.
